@@ -519,7 +519,7 @@ func parseContent(contentMap map[string]any) (Content, error) {
 		return parseTextContent(contentMap)
 	case "image":
 		return parseImageContent(contentMap)
-	case "resource":
+	case "resource", "embedded_resource": // "embedded_resource" was emitted by earlier versions of this library
 		return parseResourceContent(contentMap)
 	default:
 		return nil, fmt.Errorf("unsupported content type: %s", contentType)
